@@ -47,6 +47,8 @@ enum Ans {
     /// the command changes the command table while the script runs: it removes the registered
     /// on_error command, or registers a continuing one when there is none; result Continue(None)
     SwapHandler,
+    /// registers the command `nope` (unknown until then), or removes it again; result Continue(None)
+    SwapNope,
 }
 
 fn menu(n: usize) -> Vec<Ans> {
@@ -68,6 +70,7 @@ fn menu(n: usize) -> Vec<Ans> {
         Ans::Exit(Some("-1")),
         Ans::Exit(Some("abc")),
         Ans::SwapHandler,
+        Ans::SwapNope,
     ]
 }
 
@@ -108,6 +111,8 @@ const BUDGET: usize = 40;
 fn reference(prog: &[Line], on_error: OnError, tape: &Tape, source: Option<&str>) -> Outcome {
     // the handler is whatever is registered under the name when the error happens
     let mut on_error = on_error;
+    // a command exists from the moment it is registered, for every later line
+    let mut nope_registered = false;
     let n = prog.len();
     let menu = menu(n);
     let mut labels: BTreeMap<&str, usize> = BTreeMap::new();
@@ -141,7 +146,18 @@ fn reference(prog: &[Line], on_error: OnError, tape: &Tape, source: Option<&str>
         };
         match l.cmd {
             Cmd::None => pc += 1,
-            Cmd::Nope => return Outcome { calls, end: fail(pc) },
+            Cmd::Nope => {
+                if !nope_registered {
+                    return Outcome { calls, end: fail(pc) };
+                }
+                calls.push(Call {
+                    cmd: "nope",
+                    args: vec!["p".into()],
+                    line: pc,
+                });
+                set_out(&mut vars, None);
+                pc += 1;
+            }
             Cmd::K => {
                 calls.push(Call {
                     cmd: "k",
@@ -161,6 +177,11 @@ fn reference(prog: &[Line], on_error: OnError, tape: &Tape, source: Option<&str>
                     }
                     Ans::SwapHandler => {
                         on_error = if on_error == OnError::Absent { OnError::Continue } else { OnError::Absent };
+                        set_out(&mut vars, None);
+                        pc += 1;
+                    }
+                    Ans::SwapNope => {
+                        nope_registered = !nope_registered;
                         set_out(&mut vars, None);
                         pc += 1;
                     }
@@ -259,6 +280,22 @@ impl Rig {
                             }
                             CommandResult::Continue(None)
                         }
+                        Ans::SwapNope => {
+                            if c.commands.exists("nope") {
+                                c.commands.remove("nope");
+                            } else {
+                                let calls = calls.clone();
+                                let _ = c.commands.set(fn_command("nope", move |c| {
+                                    calls.borrow_mut().push(Call {
+                                        cmd: "nope",
+                                        args: c.arguments.clone(),
+                                        line: c.line,
+                                    });
+                                    CommandResult::Continue(None)
+                                }));
+                            }
+                            CommandResult::Continue(None)
+                        }
                         Ans::Continue(v) => CommandResult::Continue(v.map(String::from)),
                         Ans::Label(l) => CommandResult::GoTo(None, GoToValue::Label(l.to_string())),
                         Ans::Line(t) => CommandResult::GoTo(None, GoToValue::Line(t)),
@@ -320,8 +357,8 @@ impl Rig {
 
 pub fn bounds(tier: Tier) -> Value {
     match tier {
-        Tier::Quick => json!({"lines": 3, "deviations": 2, "horizon": 8, "answers_per_choice": 17}),
-        Tier::Thorough => json!({"lines": 4, "deviations": 3, "horizon": 8, "answers_per_choice": 17}),
+        Tier::Quick => json!({"lines": 3, "deviations": 2, "horizon": 8, "answers_per_choice": 18}),
+        Tier::Thorough => json!({"lines": 4, "deviations": 3, "horizon": 8, "answers_per_choice": 18}),
     }
 }
 
@@ -604,7 +641,7 @@ pub fn crash_sig(_case: &Value, kind: &str) -> String {
     kind.to_string()
 }
 
-pub const RULE: &str = "programs: every sequence of 1..n lines over 12 line forms (label none/:a/:b x {no command, `k p ${x}`, `x = k p ${x}`, unknown command `nope p`}), duplicates of labels included; configurations: on_error command absent / continuing / exiting / crashing, script as text and (small programs) as file; answers: at every invocation of the scripted command k one of 17 results (Continue with/without value, Continue after removing the registered on_error command / registering one where there is none, GoTo label :a/:b/undefined, GoTo line 0/n/n+5, Error with plain message / message containing ${x}, Crash, Exit none/0/3/-1/abc), explored with a bounded number of deviations from the default answer within a horizon of choice points. Every execution of the real runner is compared with the abstract machine run on the same answers: sequence of invocations with bound arguments and the `line` each command sees, on_error arguments (message, 1-based line, source), final variables, success or failure with source line and file. Scale cases: programs of 300/3000 (thorough 100000) lines with a far forward jump by label over unknown commands, a jump past the end, far backward jumps by label and by line, errors on the first and last line. evaluations = programs x configurations; transitions = executions; states = distinct (calls, outcome, deviations) classes";
+pub const RULE: &str = "programs: every sequence of 1..n lines over 12 line forms (label none/:a/:b x {no command, `k p ${x}`, `x = k p ${x}`, unknown command `nope p`}), duplicates of labels included; configurations: on_error command absent / continuing / exiting / crashing, script as text and (small programs) as file; answers: at every invocation of the scripted command k one of 18 results (Continue with/without value, Continue after removing the registered on_error command / registering one where there is none, Continue after registering / removing the command `nope` that other lines use, GoTo label :a/:b/undefined, GoTo line 0/n/n+5, Error with plain message / message containing ${x}, Crash, Exit none/0/3/-1/abc), explored with a bounded number of deviations from the default answer within a horizon of choice points. Every execution of the real runner is compared with the abstract machine run on the same answers: sequence of invocations with bound arguments and the `line` each command sees, on_error arguments (message, 1-based line, source), final variables, success or failure with source line and file. Scale cases: programs of 300/3000 (thorough 100000) lines with a far forward jump by label over unknown commands, a jump past the end, far backward jumps by label and by line, errors on the first and last line. evaluations = programs x configurations; transitions = executions; states = distinct (calls, outcome, deviations) classes";
 pub const ASSUMPTIONS: &[&str] = &["lines with an output variable but no command are not generated (the statement speaks of command results)", "error messages are compared only through the on_error arguments; failures are compared by line and source file"];
 pub const EXHAUSTIVE: bool = true;
 pub const WALL_CAP_S: (u64, u64) = (55, 1500);
